@@ -14,6 +14,8 @@ import ast
 
 from .common import *
 
+from ..engine.loader import class_methods
+
 CO = "xonsh/formatter/core.py"
 CL = "xonsh/formatter/cli.py"
 CONTENT_CHANGING = {"strip", "rstrip", "lstrip", "replace", "expandtabs", "translate", "lower", "upper", "title", "casefold", "sub", "subn", "removeprefix", "removesuffix", "format"}
@@ -21,11 +23,12 @@ CONTENT_CHANGING = {"strip", "rstrip", "lstrip", "replace", "expandtabs", "trans
 
 def check(ctx):
     ctx.not_decided += [
-        "that output and input parse to the same tree for every program (inter-token spacing rules are value-level)",
+        "that output and input parse to the same tree for every program (Python-mode spacing and the subprocess-line classifier are value-level; a command after `with ...:` on the same line is still spaced as Python)",
         "idempotence of formatting",
     ]
     ctx.rule("R1", "token text is emitted verbatim: _render_token returns only tok.string, a source slice, the documented brace re-escape or the comment lstrip", floor=4)
     ctx.rule("R2", "no content-changing string operation is applied to the joined text in regions that can lie inside a token", floor=1)
+    ctx.rule("R4", "between two words of a subprocess command the formatter neither creates nor removes a gap: every constant spacing decision is taken outside subprocess context, or agrees with the gap in the source (a gap separates two arguments, no gap joins them: `host:/path`, `a,b`, `if=/dev/zero`)", floor=8)
     ctx.rule("R3", "a file is rewritten only after format_source returned normally and changed the text; tokenizer errors become FormatError and are reported without writing", floor=5)
 
     co = ctx.repo.module(CO)
@@ -194,6 +197,127 @@ def check(ctx):
     ok = bool(calls) and all(_enclosing_try_with_handler(c, {"FormatError"}, mn)[0] is not None for c in calls)
     ctx.ob("R3", f"{CL}:main", "a FormatError from one file is reported and counted, never propagated into a write", ok, key="main|format-error-handler")
 
+    _spacing(ctx, co)
+
+
+CAPTURE_OPENERS = {"$(", "$[", "!(", "![", "@$("}
+PYTHON_OPENERS = {"@(", "${"}
+
+
+def _spacing(ctx, co):
+    from ..engine import dtable
+    from ..engine.fold import Folder, NotConstant
+
+    cls = co.cls("_Formatter")
+    meths = class_methods(cls)
+    sb = meths.get("_space_between")
+    if sb is None:
+        raise AnchorMissing(f"{CO}:_Formatter._space_between")
+    st = f"{CO}:_Formatter._space_between"
+    folder = Folder(co)
+
+    def table(e):
+        try:
+            v = folder.fold(e, {})
+        except (NotConstant, AnalysisError):
+            return None
+        return set(v) if isinstance(v, (set, frozenset, tuple, list)) and all(isinstance(x, str) for x in v) else None
+
+    # the context predicate(s): methods that consult both the line classification and the bracket stack
+    def reads(fn, attr):
+        return any(isinstance(n, ast.Attribute) and n.attr == attr and unparse(n.value) == "self" for n in walk_local(fn))
+
+    line_attr = "_subproc_line"
+    if not any(reads(f, line_attr) for f in meths.values()):
+        raise AnchorMissing(f"{CO}:_Formatter: the subprocess-line flag")
+    preds = {name for name, f in meths.items() if name not in ("_space_between", "__init__", "run") and any(isinstance(r, ast.Return) and r.value is not None for r in walk_local(f)) and reads(f, line_attr) and reads(f, "_brackets") and all(isinstance(r.value, ast.Constant) or (isinstance(r.value, ast.Attribute)) for r in walk_local(f) if isinstance(r, ast.Return) and r.value is not None)}
+    for name in sorted(preds):
+        f = meths[name]
+        tabs = [table(c.comparators[0]) for c in ast.walk(f) if isinstance(c, ast.Compare) and len(c.ops) == 1 and isinstance(c.ops[0], ast.In)]
+        tabs = [t for t in tabs if t is not None]
+        rets_true = [r for r in walk_local(f) if isinstance(r, ast.Return) and const_value(r.value, None) is True]
+        ok = bool(rets_true) and any(t >= CAPTURE_OPENERS and not (t & PYTHON_OPENERS) for t in tabs) and any(isinstance(r, ast.Return) and isinstance(r.value, ast.Attribute) and r.value.attr == line_attr for r in walk_local(f))
+        ctx.ob("R4", f"{CO}:_Formatter.{name}", "the context test says 'subprocess' for every capture opener ($( $[ !( ![ @$( ), 'Python' inside @( and ${, and falls back to the line's classification", ok, key=f"{name}|context-predicate-shape", where=loc(f))
+
+    def is_pos(e, who, what):
+        """e is `<who>.<what>` possibly subscripted"""
+        while isinstance(e, ast.Subscript):
+            e = e.value
+        return isinstance(e, ast.Attribute) and e.attr == what and isinstance(e.value, ast.Name) and e.value.id == who
+
+    pprev, pcur = param_name(sb, 0), param_name(sb, 1)
+    n = 0
+    sites = {}
+    for p_ in dtable.paths(sb, loops="skip"):
+        if p_.outcome != "return" or not dtable.feasible(p_):
+            continue
+        v = p_.value
+        if not isinstance(v, ast.Constant):
+            # computed from the two tokens (raw source between them / indentation of a continuation line)
+            continue
+        n += 1
+        not_subproc = gap = nogap = exempt = padding = False
+        line_false = depth0 = False
+        for e, pol in p_.conds:
+            txt = unparse(e)
+            if isinstance(e, ast.Call) and isinstance(e.func, ast.Attribute) and unparse(e.func.value) == "self" and e.func.attr in preds and not pol:
+                not_subproc = True
+            if isinstance(e, ast.Attribute) and e.attr == line_attr and not pol:
+                line_false = True
+            if isinstance(e, ast.Compare) and len(e.ops) == 1 and isinstance(e.ops[0], ast.Eq) and const_value(e.comparators[0], None) == 0 and ("_paren_depth" in txt or "_brackets" in txt) and pol:
+                depth0 = True
+            if isinstance(e, ast.Compare) and len(e.ops) == 1:
+                l, r, op = e.left, e.comparators[0], e.ops[0]
+                pe = is_pos(l, pprev, "end") or is_pos(r, pprev, "end")
+                cs_ = is_pos(l, pcur, "start") or is_pos(r, pcur, "start")
+                if pe and cs_:
+                    if isinstance(op, ast.Eq):
+                        if pol:
+                            nogap = True
+                        else:
+                            gap = True  # different rows / different positions
+                    elif isinstance(op, ast.NotEq):
+                        if pol:
+                            gap = True
+                    elif isinstance(op, (ast.Gt, ast.Lt)):
+                        if pol:
+                            gap = True
+                        else:
+                            nogap = True
+                # documented exemptions: f-string pieces (unreliable positions), comments, the token after a backslash-newline
+                if isinstance(op, (ast.In, ast.Eq)) and pol:
+                    if "FSTRING" in unparse(r) or "COMMENT" in unparse(r):
+                        exempt = True
+                    t = table(r) if isinstance(op, ast.In) else ({const_value(r, None)} if isinstance(const_value(r, None), str) else None)
+                    if t and all("\n" in x for x in t):
+                        exempt = True
+                    # padding just inside a capture's own brackets: the token before is a capture/python-eval opener, or the
+                    # bracket being closed is one
+                    if t and t <= (CAPTURE_OPENERS | PYTHON_OPENERS | {"@!("}) and isinstance(op, ast.In):
+                        padding = True
+        if line_false and depth0:
+            not_subproc = True
+        val = v.value
+        if not_subproc or exempt:
+            ok = True
+        elif val == "":
+            ok = nogap or padding
+        else:
+            ok = gap
+        why = None if ok else ("removes" if val == "" else "creates") + " a gap although nothing on this path says the source had " + ("none" if val == "" else "one") + ", and the path can be taken between two words of a command"
+        # one obligation per return statement: all paths into it must be fine
+        rs = p_.node
+        guard = next((a for a in ancestors(rs) if isinstance(a, ast.If)), None) if rs is not None else None
+        gk = short(guard.test, 70) if guard is not None else "(default)"
+        ent = sites.setdefault((id(rs), gk, repr(val)), {"node": rs, "ok": True, "why": None, "paths": 0, "bad": None})
+        ent["paths"] += 1
+        if not ok and ent["ok"]:
+            ent.update(ok=False, why=why, bad="; ".join(p_.cond_texts())[-160:])
+    for (_, gk, val), ent in sites.items():
+        ctx.ob("R4", st, f"`if {gk}: return {val}` ({ent['paths']} path(s))", ent["ok"], key=f"space_between|gap-decided-without-source|{gk}|{val}", where=loc(ent["node"]) if ent["node"] is not None else loc(sb), detail=(ent["why"] + " - e.g. under [" + ent["bad"] + "]") if not ent["ok"] else None)
+    if len(sites) < 8:
+        raise AnalysisError(f"{st}: only {len(sites)} constant spacing decisions enumerated")
+
 
 META = {
     "technique": "static analysis: return-shape/provenance check of the token renderer, operation whitelist over the joined text, CFG dominance and guard facts before the write-back",
@@ -204,7 +328,7 @@ META = {
     "reported (known finding: _finalize's per-line rstrip reaches inside multi-line string literals); in the CLI "
     "the write-mode open is dominated by a normally returning format_source, guarded by `original != formatted` and "
     "by not --check/--diff, writes exactly the formatter's output, and tokenizer errors become FormatError handled "
-    "per file. Tree equality and idempotence for all programs are not decided.",
-    "note": "Decides the listed structural clauses, not the behaviour. Inter-token spacing rules (_space_between) "
-    "are value-level and outside this analysis.",
+    "per file; between two words of a subprocess command every constant gap _space_between can return is decided outside subprocess context or agrees with the gap in the source (a gap is the argument boundary). Tree equality and idempotence for all programs are not decided.",
+    "note": "Decides the listed structural clauses, not the behaviour. Python-mode spacing (which operators get spaces) "
+    "and the line classifier (_is_subproc_statement: a heuristic over token shapes) are value-level and outside this analysis.",
 }
